@@ -139,6 +139,7 @@ func init() {
 		Decided: "C08.1 every reply/error call in the handler passes the query's source and the query's t; C08.2 the builders put t, y, own ID, requester ip into the message and write to the same address; no other code builds r/e messages; " +
 			"C08.3 exactly one reply-or-error per query on every path (zero only behind passive, hook veto, invalid token), one socket write per reply/error; C08.4 default branch answers 204, missing arguments answer 203 in every method that uses arguments; " +
 			"C08.6 the Addr built from the received source keeps that very net.Addr (or a copy in which every field of the original is carried over) and Raw() returns it, so the write goes to the complete source address (IP, port and zone); " +
+			"C08.7 the buffer handed to PacketConn.ReadFrom has a constant length > 65527 (the largest UDP payload), so the 'datagram filled the buffer' discard can never hit a complete datagram and every query reaches the dispatcher; " +
 			"C08.5 nothing that can reach the socket write is reachable from the non-query branch of the packet processor.",
 		NotDecided: "byte-for-byte content of the encoded datagrams (bencode library), 'when send budget allows' (C20).",
 		Rules: []*Rule{
@@ -147,6 +148,7 @@ func init() {
 			{ID: "C08.3", Doc: "exactly one datagram per query", Floor: 8, Run: c08r3},
 			{ID: "C08.4", Doc: "error codes: 204 unknown method, 203 missing arguments", Floor: 5, Run: c08r4},
 			{ID: "C08.5", Doc: "silence on non-queries", Floor: 3, Run: c08r5},
+			{ID: "C08.7", Doc: "no well-formed query is dropped for its size: the read buffer is longer than any UDP payload", Floor: 1, Run: c08r7},
 			{ID: "C08.6", Doc: "the address wrapper hands back the complete address it was built from", Floor: 2, Run: c08r6},
 		},
 	})
@@ -766,4 +768,76 @@ func termMentionsParam(t *Term, p *ssa.Parameter) bool {
 		return !found
 	})
 	return found
+}
+
+// c08r7: "always get one" starts with reading the whole datagram.
+func c08r7(w *World, rr *RuleRun) {
+	readFrom := w.P.ExtMethod("net", "PacketConn", "ReadFrom")
+	n := 0
+	for _, site := range w.AllCallsTo(w.P.LibFuncs, readFrom) {
+		c := callInstrCommon(site)
+		if !c.IsInvoke() || len(c.Args) != 1 {
+			continue
+		}
+		n++
+		ln, how := constSliceLen(c.Args[0])
+		rr.At(w, site, "the read buffer is longer than the largest UDP payload (65527 bytes)", ln > 65527, fmt.Sprintf("buffer length %d (%s)", ln, how))
+	}
+	if n == 0 {
+		rr.Broken("no PacketConn.ReadFrom call found")
+	}
+}
+
+// constSliceLen: the constant length of a slice value built from a fixed array or make; -1 if unknown.
+func constSliceLen(v ssa.Value) (int64, string) {
+	switch x := v.(type) {
+	case *ssa.Slice:
+		var arr *types.Array
+		if pt, ok := x.X.Type().Underlying().(*types.Pointer); ok {
+			arr, _ = pt.Elem().Underlying().(*types.Array)
+		}
+		if arr == nil {
+			if inner, how := constSliceLen(x.X); inner >= 0 && x.Low == nil && x.High == nil {
+				return inner, how
+			}
+			return -1, "slice of a non-array"
+		}
+		lo, hi := int64(0), arr.Len()
+		if x.Low != nil {
+			c, ok := ConstInt(x.Low)
+			if !ok {
+				return -1, "non-constant low bound"
+			}
+			lo = c
+		}
+		if x.High != nil {
+			c, ok := ConstInt(x.High)
+			if !ok {
+				return -1, "non-constant high bound"
+			}
+			hi = c
+		}
+		return hi - lo, fmt.Sprintf("array of %d", arr.Len())
+	case *ssa.MakeSlice:
+		if c, ok := ConstInt(x.Len); ok {
+			return c, "make"
+		}
+		return -1, "make with a non-constant length"
+	case *ssa.UnOp:
+		// load of a single-assignment local holding the slice
+		if al, ok := x.X.(*ssa.Alloc); ok && al.Referrers() != nil {
+			var val ssa.Value
+			cnt := 0
+			for _, r := range *al.Referrers() {
+				if st, ok := r.(*ssa.Store); ok && st.Addr == al {
+					cnt++
+					val = st.Val
+				}
+			}
+			if cnt == 1 {
+				return constSliceLen(val)
+			}
+		}
+	}
+	return -1, "unknown origin"
 }
